@@ -260,6 +260,13 @@ func Message(r *rand.Rand, counter int) (string, string) {
 	case 16:
 		return "\n" + u + " body after an empty first line", "empty-first-line"
 	case 17:
+		switch r.IntN(4) {
+		case 0:
+			// one line beyond 64 KiB (a single argument may be 128 KiB long): ASCII, and mostly multi-byte characters
+			return u + " " + strings.Repeat("w", 70000), "line-70000"
+		case 1:
+			return u + " " + strings.Repeat("\u00e9\u65e5", 15000), "line-75000-multibyte"
+		}
 		return u + " " + strings.Repeat("x", 4096-len(u)-1), "line-4096"
 	case 18:
 		return u + " subject\n\n" + strings.Repeat("y", 5000) + "\nend", "line-5000"
@@ -299,7 +306,7 @@ func Message(r *rand.Rand, counter int) (string, string) {
 func Identity(r *rand.Rand) (name, email, class string) {
 	names := []struct{ n, c string }{
 		{"Alice", "plain"}, {"Alice B. Carol", "spaces"}, {"José Núñez", "non-ascii"}, {"山田 太郎", "non-ascii"},
-		{"O'Neil", "quote"}, {"a>b", "gt"}, {"Q> A team", "gt-space"}, {"Ren\ufffde M\ufffdller", "replacement-char"}, {"\ufffd", "replacement-char"}, {"50%% off", "percent"}, {"100% sure Jun", "percent"}, {"a > b > c", "gt-space"}, {"x>", "gt"}, {"> lead", "gt-space"}, {"Mr 100% X", "percent"}, {"Ann  Lee", "double-space"}, {"a   b  c", "double-space"}, {"%s %d", "percent-verbs"}, {"Dr. X (PhD)", "paren"}, {"x=y", "equals"}, {"#1 dev", "hash"}, {"[bot]", "bracket"},
+		{"O'Neil", "quote"}, {"a>b", "gt"}, {"Q> A team", "gt-space"}, {"\"Ann Lee\"", "quoted-literal"}, {"`bot`", "quoted-literal"}, {"'x'", "quoted-literal"}, {"\"a\\tb\"", "quoted-literal"}, {"Ren\ufffde M\ufffdller", "replacement-char"}, {"\ufffd", "replacement-char"}, {"50%% off", "percent"}, {"100% sure Jun", "percent"}, {"a > b > c", "gt-space"}, {"x>", "gt"}, {"> lead", "gt-space"}, {"Mr 100% X", "percent"}, {"Ann  Lee", "double-space"}, {"a   b  c", "double-space"}, {"%s %d", "percent-verbs"}, {"Dr. X (PhD)", "paren"}, {"x=y", "equals"}, {"#1 dev", "hash"}, {"[bot]", "bracket"},
 	}
 	emails := []string{"a@example.com", "first.last@sub.example.org", "x_y+tag@a-b.co", "u@d.io", "A.B-c@x1.y2.museum"}
 	n := pick(r, names)
